@@ -647,14 +647,14 @@ class E_derived:
     def space(seed, tier):
         for sh in gshapes():
             ntot = sh[0] * sh[1]
-            for area in ("empty", "one", "all", "delineated", "invalid", "dup"):
+            for area in ("empty", "one", "all", "delineated", "invalid", "dup", "ring"):
                 for npts in (0, 1, 2, ntot + 2):
                     for cls in ("finite", "nan", "pinf", "huge", "mixed"):
                         for w in (2, 1, 3):
                             yield {"f": "voronoi", "shape": list(sh), "area": area, "npts": npts, "cls": cls, "w": w}
-                for gsh in ((1, 1), (2, 2), (1, 3)):
+                for gsh in ((1, 1), (2, 2), (1, 3), (4, 4), (7, 7)):
                     for o in devs({"csz": 2.0, "xll": 0.0, "yll": 0.0, "filled": False},
-                                  {"csz": [1.0, 0.5, 0.0, -1.0, float("nan"), 1e300], "xll": [-1.0, 100.0, float("nan"), -1e300],
+                                  {"csz": [1.0, 0.5, 0.25, 0.0, -1.0, float("nan"), 1e300], "xll": [-1.0, 100.0, float("nan"), -1e300],
                                    "yll": [0.5, -100.0], "filled": [True]}, 2):
                         yield dict(o, f="intersect", shape=list(sh), area=area, gshape=list(gsh))
                 yield {"f": "boundary", "shape": list(sh), "area": area}
@@ -670,9 +670,15 @@ class E_derived:
         if area == "delineated":
             ca.delineate_area(ntot - 1, nval=ntot + 3)
         else:
-            cells = {"empty": [], "one": [0], "all": list(range(ntot)), "invalid": [-1, ntot, 2 ** 40], "dup": [0, 0, 0]}[area]
+            if area == "ring":
+                # every cell on the edge of the grid; the filled area is the whole grid (more cells than the area)
+                cells = [c for c in range(ntot) if (c // nc in (0, nr - 1)) or (c % nc in (0, nc - 1))]
+                filledcells = list(range(ntot))
+            else:
+                cells = {"empty": [], "one": [0], "all": list(range(ntot)), "invalid": [-1, ntot, 2 ** 40], "dup": [0, 0, 0]}[area]
+                filledcells = cells
             ca._idxcells_area = np.array(cells, dtype=np.int64)
-            ca._idxcells_area_filled = np.array(cells, dtype=np.int64)
+            ca._idxcells_area_filled = np.array(filledcells, dtype=np.int64)
             ca._idxcell_outlet = np.int64(ntot - 1)
         f = p["f"]
         if f == "voronoi":
